@@ -174,6 +174,7 @@ def plain_userdata_cases(run):
 def feature_cases(run, scratch):
     """Enumerated cases for paths the random stream reaches rarely or never: returns (case, [(pairing, mode, ver), ...])."""
     out = []
+    quick = run.tier == "quick"
     ALL = PAIRINGS
     SYN = ["filter all 0", "flags 8", "src synthetic package:2 [numa] l2:2 pu:2"]
     UD = ["ann ud 0 1 s6e s000102ff", "ann ud 1 0 - s68656c6c6f", "ann ud 3 1 - s00", "ann ud 3 0 s7120 s61206220630a64", "ann ud 4 1 s62 s", "ann ud 5 0 - s",
@@ -206,6 +207,24 @@ def feature_cases(run, scratch):
     }
     for nm, anns in hist.items():
         out.append((Case("feature:dirty:" + nm, "feature", SYN2, anns, ["feature", "dirty"]), DIRTY))
+    # distances arrays are written ten numbers per element: every matrix size around the line width, homogeneous (os and gp
+    # indexing) and heterogeneous, so that arrays ending exactly on a full line (n or n*n multiple of 10) occur
+    sizes = list(range(2, 32)) + [40, 50, 100]
+    plans = [[(("0", "0"), "buffer", "v3"), (("1", "1"), "file", "v3")], [(("0", "1"), "file", "v3"), (("1", "0"), "buffer", "v2")],
+             [(("1", "1"), "buffer", "v3"), (("0", "0"), "file", "v2")], [(("1", "0"), "file", "v3"), (("0", "1"), "buffer", "v2")]]
+    for n in sizes:
+        top = ["filter all 0", "flags 0", "src synthetic package:%d [numa(memory=1048576)] core:1 pu:1" % n]
+        anns = ["ann distn 4 %d -1 0 5 %d %s" % (n, n, H(b"PU%d" % n)),          # PUs: os indexing
+                "ann distn 1 %d -1 0 9 %d %s" % (n, n + 1, H(b"Pk%d" % n)),      # Packages: gp indexing
+                "ann distn 14 %d -1 0 6 %d %s" % (n, n + 2, H(b"Nd%d" % n)),     # NUMA nodes
+                "ann distn 3 %d 4 %d 5 %d %s" % (n // 2, n - n // 2, n + 3, H(b"Het%d" % n))]   # Cores + PUs, n objects in total
+        plan = plans[n % 4] if quick and n not in (10, 20, 30) else [j for pl in plans for j in pl]
+        out.append((Case("feature:dist-size:%d" % n, "feature", top, anns, ["feature", "distsize"]), plan))
+    # a whole level of Groups that brings no structure (one Group above each Package, same cpuset) survives only through
+    # dont_merge: the attribute must be exported in v2 as well, else the reload merges the level away (tree clause of v2)
+    out.append((Case("feature:v2-dontmerge-level", "feature", ["filter all 0", "flags 0", "src synthetic package:2 pu:2"],
+                     ["ann group 1 1 1 0 0", "ann group 5 5 1 0 0"], ["feature"]),
+                [(p, "buffer", "v2") for p in ALL] + [(("0", "0"), "file", "v2"), (("0", "0"), "buffer", "v3"), (("1", "1"), "file", "v3")]))
     # topology diffs: export to file and buffer, load both back, apply
     out.append((Case("feature:diff-xml", "feature", SYN, ["diffrt {TMP} %s" % G.hx(b"ref <name> & \"q\""), "ann name 1 s70"], ["feature"]),
                 [(("0", "0"), "buffer", "v3"), (("1", "1"), "buffer", "v3"), (("0", "1"), "file", "v3"), (("1", "0"), "file", "v3")]))
